@@ -412,6 +412,30 @@ func fluentCase(seed uint64, idx int) *CaseSpec {
 				m := st.sent[sentSoFar-1]
 				st.mu.Unlock()
 				t.Add("fl.mod %d %s => %s", ty, L(ks), encFields(flatten(m)))
+			case x < 97 && s > 5:
+				// the same fluent client stopped and started again (a new stream): its operation
+				// ids and its current election id go on
+				ok, _ := runCap(func(tb testing.TB) {
+					c.Stop(tb)
+					c.Start(ctx, tb)
+					c.StartSending(ctx, tb)
+				})
+				if !ok {
+					t.Add("crash - %s", S("restart failed"))
+					t.Add("end")
+					return t, nil
+				}
+				st = stub.last()
+				time.Sleep(2 * time.Millisecond)
+				for i := 0; i < 200; i++ {
+					n := st.nSent()
+					time.Sleep(300 * time.Microsecond)
+					if n == st.nSent() && (n > 0 || !elected) {
+						break
+					}
+				}
+				sentSoFar = st.nSent()
+				t.Add("fl.restart")
 			default:
 				lo, hi := uint64(1+r.IntN(9)), uint64(r.IntN(3))
 				c.Modify().UpdateElectionID(nil, lo, hi)
